@@ -14,7 +14,7 @@ def floors(ctx, name, spec):
 
 
 def run(ctx):
-    if not ctx.build_harness(["c16.go"]):
+    if not ctx.build_harness(["c16.go", "c16final.go"]):
         return
     ctx.forbidden_scan()
     # the driver (model + acceptor) must build even if a proof breaks
@@ -29,16 +29,34 @@ def run(ctx):
     quick = ctx.tier == "quick"
     n = 10000 if quick else 1500000
     cpu = 150 if quick else 6000
-    ctx.differential("c16", n, extra=["-cpu", str(cpu), "-cpudir", "cpu"],
-                     nontrivial=lambda req, resp: " a" in req or req.startswith("accept-cpu"))
+    nasm = 8 if quick else 300
+    nfinal = 3333 if quick else 120000   # files of the compiled-and-printed stream (1-4 functions each)
+    ctx.differential("c16", n, extra=["-cpu", str(cpu), "-cpudir", "cpu", "-asm", str(nasm), "-asmdir", "asm", "-final", str(nfinal)],
+                     nontrivial=lambda req, resp: " a" in req or req.startswith("accept-cpu") or req.startswith("accept-asm"))
     k = n // 10000
+    kf = nfinal // 3333
     # about a third of what seeds 1..12 give for n = 10000
     floors(ctx, "c16", {
         "judged_functions": 4000 * k, "in_scope": 3500 * k, "bp_clobbered": 800 * k, "forced_local": 100 * k,
         "bp_write_requested": 800 * k, "size_zero": 500 * k, "size_unaligned": 2000 * k, "frame_ge_2^31": 30 * k,
         "multi_function_context_functions": 1500 * k, "package_level_route_functions": 1200 * k, "judged_with_args": 2500 * k,
         "cpu_functions": cpu, "cpu_bp_clobbering": cpu // 4, "cpu_locals": cpu,
+        "cpu_bp_forced_by_allocator": cpu // 8, "cpu_bp_written_with_locals": cpu // 3,
+        # the compiled-and-printed stream (about a third of what seeds 1..5 give for 3333 files)
+        "final_functions": 1800 * kf, "final_judged": 1800 * kf, "final_refs": 5000 * kf, "final_mixed_sizes": 1100 * kf,
+        "final_bp_author": 600 * kf, "final_bp_forced_by_allocator": 500 * kf, "final_bp_clobbered_with_used_locals": 800 * kf,
+        "final_bp_forced_by_allocator_with_used_locals": 350 * kf, "final_forced_local": 250 * kf, "final_noframe": 40 * kf,
+        "final_with_call": 100 * kf, "final_multi_function_file_functions": 1100 * kf,
+        "final_package_level_route_functions": 450 * kf,
+        # the assembled-and-disassembled files
+        "asm_functions": 10 * nasm, "asm_refs": 30 * nasm, "asm_bp_saved": 8 * nasm,
+        "asm_bp_clobbered_with_used_locals": 3 * nasm,
     })
+    # nothing may silently drop out of the judged set
+    st = ctx.coverage.get("input_distribution", {}).get("c16", {})
+    for key in ("final_unmatched", "asm_unmatched", "asm_build_failed", "asm_file_not_compiled", "final_panic", "cpu_build_failed"):
+        if st.get(key, 0):
+            ctx.obligation_failures.append((f"c16: {key}", f"{st.get(key)} generated functions could not be judged"))
     ctx.coverage["rule"] = (
         "random interleavings of AllocLocal (sizes 0, 1..7, aligned, up to 2^31 — totals reach beyond 2^31 —, a few negative = out of "
         "scope) with instruction emission (stores/loads on locals, physical and virtual registers, writes to RBP/EBP/BP/BPB), "
@@ -50,7 +68,20 @@ def run(ctx):
         "of `$frame` — inside the frame that is really allocated) on the implementation's own regions; `accept-bpwrite`: where the "
         "generator emitted a write to a BP view the compiled function still writes BP; measured: generated functions store a "
         "distinct pattern into every local, read all of them back and are executed (go build + run, frames up to 20000 bytes), the "
-        "caller's BP compared before/after; non-trivial = at least one allocation. Lower bounds on the judged cases of every stream "
+        "caller's BP compared before/after — through an ASSEMBLY trampoline that CALLs the ABI0 entry directly (a Go call goes "
+        "through a compiler-generated wrapper that saves and restores BP and would hide the damage), reads BP right before and "
+        "right after the CALL and keeps canary words above the callee's argument; half of the functions that do not name BP keep "
+        "15 values live so that the allocator hands BP out. THE COMPILED AND PRINTED FUNCTION (c16final.go): functions whose "
+        "instructions use their locals (MOVB/W/L/Q, MOVOU, VMOVDQU, LEAQ at the first, last and random bytes of locals of mixed "
+        "sizes, through physical and virtual registers), BP written by the author (5 views) or forced on the allocator (15 live "
+        "values) or not at all, NOFRAME/NOSPLIT, with/without CALL, 1-4 functions per file, both routes: `final` compares frame, "
+        "TEXT size and the displacement of every SP-relative operand of the COMPILED instructions (Operands; Inputs/Outputs must "
+        "agree) exactly with the Lean model of the pipeline (ensureBPFn); `accept-final` gives the operand texts as PRINTED to the "
+        "Lean acceptor (acceptFinal_iff: each addresses the region handed out, regions disjoint, inside the frame the assembler "
+        "allocates for the printed TEXT size, off the BP slot); `accept-asm`: generated files are assembled (go tool asm), "
+        "disassembled (go tool objdump, bytes decoded with x86asm) and the MEASURED prologue (PUSHQ BP / SUBQ $n, SP), RSP "
+        "displacements and access widths are judged (acceptMeasured_iff) against the measured BP word and return address; "
+        "non-trivial = at least one allocation. Lower bounds on the judged cases of every stream "
         "are obligations (sample floors)")
     ctx.coverage["exact_comparison_scope"] = (
         "the `locals` line compares offsets, frame and text EXACTLY with the model of avo's bump allocation; the property itself does "
@@ -70,5 +101,10 @@ def run(ctx):
         "nothing was requested, the harness's own scan of the compiled output registers (hardware GP number 5)",
     ]
     ctx.trusted.append("the host CPU and the Go toolchain (go build) for the measured read-back part")
+    ctx.trusted.append("go tool asm, go tool objdump (line attribution of instructions) and golang.org/x/arch/x86/x86asm for accept-asm")
+    ctx.assumptions.append(
+        "accept-final / final: operands are matched with the locals they were emitted for by program order (no pass of "
+        "pass.Compile adds, drops or reorders instructions with SP-relative operands; a count mismatch is reported as a broken "
+        "correspondence, never silently skipped)")
     ctx.trusted.append("the int32 reading of the TEXT frame (Model/BP autoffset) is a hand-written model of cmd/internal/obj/x86/obj6.go, "
                        "MEASURED by C15's Oracle/AsmBP grid (frames 2^31 and 2^32+8) and by go tool asm + objdump")
